@@ -1,6 +1,7 @@
 import Mkts.Model.Path
 import Mkts.Model.Timeframe
 import Mkts.Extracted.Skeletons
+import Mkts.Model.CatalogTie
 /-!
 # Requests against a directory tree: `catalog.AddTimeBucket`, `RemoveTimeBucket`, `load`,
 `frontend.Create/Write/Destroy`, `executor.WriteCSM` (lookup, auto-create, new-year file) — the part
@@ -218,6 +219,10 @@ def Cat.addSubdir (c : Cat) (name : Str) (childPath : Path) (sub : List (List St
 def addTimeBucket (root : Path) (fs : FS) (cat : Cat) (k : Key) (year : Nat) : FS × Cat × Res :=
   let items := k.items
   if addValidates && !allSafe items then (fs, cat, .other) else
+  -- `fix: AddTimeBucket checks the key before it creates directories` (C17-F2): a key whose item
+  -- count differs from its category count is refused before anything is created (it used to run
+  -- into an index panic after making directories); read off the regenerated skeleton
+  if Mkts.CatalogTie.checkFirstInCode && k.cats.length != items.length then (fs, cat, .other) else
   match addLoop k.cats fs root items 0 with
   | (fs1, .error e) => (fs1, cat, e)
   | (fs1, .ok dirname) =>
